@@ -609,3 +609,104 @@ func TestVerifStatusReplay(t *testing.T) {
 	}
 	_ = strings.ToLower
 }
+
+// ---------------------------------------------------------------------------------------- end to end
+// TestVerifStatusE2E: the real SourceControl next to the real RunClientUpdater.  What the configuration file holds for a
+// persistent topic after the updater's delayed save must be the LAST value of that topic that clients were told - also
+// when the server's own copy moved on without a publication (a Start that fails, projectors loaded).
+// Needs VERIF_REAL_CLIENTUPDATER=1.  One event:  E2E  topics = [[topic, published (canonical), saved (canonical)] ...]
+func TestVerifStatusE2E(t *testing.T) {
+	base, err := os.MkdirTemp("", "verif_e2e")
+	if err != nil {
+		t.Fatal(err)
+	}
+	defer os.RemoveAll(base)
+	for scen, variant := range []string{"failed-start", "projectors"} {
+		home := filepath.Join(base, variant)
+		suStartup(home)
+		port := vFreePort("tcp")
+		abort := make(chan struct{})
+		done := make(chan struct{})
+		go func() { defer close(done); RunClientUpdater(port, abort) }()
+		sub, err := zmq4.NewSocket(zmq4.SUB)
+		if err != nil {
+			t.Fatal(err)
+		}
+		sub.SetSubscribe("")
+		sub.Connect(fmt.Sprintf("tcp://localhost:%d", port))
+		time.Sleep(500 * time.Millisecond)
+		last := map[string]string{}
+		drain := func() {
+			msgs, _ := suRecvUntilMark(sub)
+			for _, m := range msgs {
+				last[m[0]] = m[1]
+			}
+		}
+		ctl := NewSourceControl()
+		ctl.clientUpdates = clientMessageChan
+		ctl.mapServer = newMapServer()
+		ctl.status.Npresamp, ctl.status.Nsamples = 10, 40
+		stopHB := make(chan struct{})
+		go func() {
+			for {
+				select {
+				case <-ctl.heartbeats:
+				case <-stopHB:
+					return
+				}
+			}
+		}()
+		ok := false
+		ctl.ConfigureSimPulseSource(&SimPulseSourceConfig{Nchan: 2, SampleRate: 20000, Pedestal: 1000, Amplitudes: []float64{3000}, Nsamp: 400}, &ok)
+		name := "SIMPULSESOURCE"
+		if err := ctl.Start(&name, &ok); err != nil {
+			t.Fatal(err)
+		}
+		time.Sleep(150 * time.Millisecond)
+		if variant == "projectors" {
+			pbo := ProjectorsBasisObject{ChannelIndex: 1, ProjectorsBase64: rqMatrix(3, 40), BasisBase64: rqMatrix(40, 3), ModelDescription: "x"}
+			drain()
+			rqCall(func() error { return ctl.ConfigureProjectorsBasis(&pbo, &ok) }, 5*time.Second)
+		}
+		d := "x"
+		rqCall(func() error { return ctl.Stop(&d, &ok) }, 5*time.Second)
+		drain() // everything published so far has gone through the updater and reached the client
+		if variant == "failed-start" {
+			other := "LANCEROSOURCE" // no cards here: the Start fails
+			ctl.Start(&other, &ok)
+		}
+		// another persistent topic changes: the updater schedules its delayed save (2 s)
+		ctl.ConfigureTriangleSource(&TriangleSourceConfig{Nchan: 3, SampleRate: 30000, Min: 100, Max: 400}, &ok)
+		drain()
+		time.Sleep(2600 * time.Millisecond)
+		drain()
+		// what the file holds now
+		v := viper.New()
+		v.SetConfigFile(filepath.Join(home, ".dastard", "config.yaml"))
+		topics := [][]string{}
+		if err := v.ReadInConfig(); err == nil {
+			var st ServerStatus
+			if v.UnmarshalKey("status", &st) == nil && last["STATUS"] != "" {
+				var pub ServerStatus
+				if json.Unmarshal([]byte(last["STATUS"]), &pub) == nil {
+					topics = append(topics, []string{"STATUS", suCanon(pub), suCanon(st)})
+				}
+			}
+			var tc TriangleSourceConfig
+			if v.UnmarshalKey("triangle", &tc) == nil && last["TRIANGLE"] != "" {
+				var pub TriangleSourceConfig
+				if json.Unmarshal([]byte(last["TRIANGLE"]), &pub) == nil {
+					topics = append(topics, []string{"TRIANGLE", suCanon(pub), suCanon(tc)})
+				}
+			}
+		}
+		vEmit(vmap{"ev": "E2E", "scen": scen + 1, "variant": variant, "topics": topics})
+		close(stopHB)
+		close(abort)
+		select {
+		case <-done:
+		case <-time.After(3 * time.Second):
+		}
+		sub.Close()
+	}
+}
